@@ -4,5 +4,5 @@ Extraction Language OCaml.
 Extraction "../ocaml/build/c09_model.ml"
   force_types add_definitions check_for_definitions str_forest str_node
   expand_t shrink_t validate_def_tags defexpand_accepted
-  load abs tag_flags parents_ok step run step_t run_t
-  load_o abs_of step_o run_o flags_o wf_dict.
+  load abs tag_flags parents_ok step run step_ts run_ts run_t
+  load_o abs_of step_os run_os run_o flags_o wf_dict.
